@@ -31,10 +31,11 @@ EXPLANATION = (
     'or required or already configured). R1f: candidate loop: found -> implicit override for every name not yet overridden, return; required and '
     '(not-found object or last) -> error; not-found object -> returned; only the last candidate is required. R1g: _get_subproject_dep: not configured -> None; '
     'override by any name wins; else variable (explicit or wrap [provide]); no variable / version mismatch -> not-found object, never None. '
+    'R1b/R1c key agreement: every access of the override table / dependency cache in _do_dependency and _get_cached_dep whose key is a get_dep_identifier(..) call uses [self.for_machine] and (the name parameter, the kwargs parameter) - the same key R1f requires of the implicit override (another operand or machine index is a violation; a key that is no get_dep_identifier call stays Undecided). '
     'R2a: every path _get_file_internal returns is verified on that path by check_hash(what, path) or _download(what, path) (hash optional only without <what>_url). '
     'R2b: check_hash raises unless sha256(file) == <what>_hash. R2c: in _download os.rename(tmp, ofname) is reached only after digest == expected, with '
     'digest/tmp from one get_data call; mismatch removes tmp and raises; get_data hashes every block it writes. R2d: every unpack_archive in wrap.py takes '
-    'its archive from _get_file_internal. R3: every network primitive reachable from Resolver.resolve() is reachable only after check_can_download() completed. '
+    'its archive from _get_file_internal. R3: every network primitive reachable from Resolver.resolve() is reachable only after check_can_download() completed (a callee is entered with the flag parameters its call site binds to literal True/False/None - given or defaulted - so a guard under `if not fallback:` counts for the calls that pass False only; a guard inside `with contextlib.suppress(<class its exception is an instance of>)` or a try whose handler goes on is no guard). '
     'R5: a keyword argument that Interpreter.func_dependency reads again after lookup() returned (include_type, not_found_message) or that is rewritten in the dict the '
     'identifier is computed from (required) is on no path of get_dep_identifier put into the identifier. '
     'R6: a placeholder that Dependency.get_version() returns for a missing version never satisfies a constraint in DependencyFallbacksHolder._check_version, and '
@@ -46,7 +47,7 @@ EXPLANATION = (
     'that sha256/urlopen behave as documented, KeyboardInterrupt during patching, how the text of a [provide] value is cut into names (per-item strip()/lower() in PackageDefinition.parse_provide_section is string processing on run-time values), '
     'that an override is found by a dependency() call that names another method/modules/components (these keywords are part of the identifier by upstream design; confirmed by probe, not armed), a guard of _get_cached_dep spelled with another attribute than the reference knows (ends Undecided), override_dependency() in interpreter/mesonmain.py, '
     'a failure of the acquisition step itself (a failing shutil.unpack_archive in _get_file / clone in _get_git leaves a partly populated directory that a later run accepts when the build file was already unpacked: outside the clause "a failed patch/diff step", printed as an information note by R4, witness in the note), '
-    '`meson subprojects update/packagefiles` (msubprojects.py re-applies patches outside the cleanup).')
+    '`meson subprojects update/packagefiles` (msubprojects.py re-applies patches outside the cleanup), a known call made with other operands than the reference reads (e.g. _get_cached_dep(self.names[0], ..) inside the loop over the names, get_varname() with swapped operands, find_dep_provider(self.names[0])): the atom is not recognised and the table rule ends Undecided, it is not reported as a violation.')
 ASSUMPTIONS = ['Dependency objects are truthy; NotFoundDependency.found() is False',
                'hashlib.sha256 / os.rename / shutil.unpack_archive behave as documented',
                'git submodule update is exempt from nodownload (documented in check_can_download)',
@@ -55,7 +56,7 @@ TECHNIQUE = ('decision tables by path enumeration over canonical atoms (locals n
              'reference policy with symbolic comparison of outcomes/effects; CFG reachability/dominance incl. exception edges; interprocedural guard '
              '(must-pass) analysis over the Resolver call graph incl. constant dispatch tables; who-may-call; def-use origin flows.  Before paths are taken a private '
              'copy of each function is put into one spelling (extracted helpers expanded, call arguments bound by signature, text templates, De Morgan/'
-             'bool returns, next()-search -> loop, membership/len/chained comparisons).  No repository code is interpreted on values.')
+             'bool returns, next()-search -> loop, membership/len/chained comparisons, `d.setdefault(k, v)` statement -> `if k not in d: d[k] = v`, `with contextlib.suppress(E): B` -> `try: B except E: pass`).  No repository code is interpreted on values.')
 
 
 # The vocabulary the reference is written in: the operations of the two classes as the design read them.  A method that is
@@ -122,6 +123,12 @@ def _fn(mod: Module, qn: str) -> T.Any:
     if key not in _INLINED:
         if len(_INLINED) > 200:
             _INLINED.clear()
+        repo = getattr(mod, 'repo', None)
+        if repo is not None:      # get_dep_identifier(name=.., kwargs=..) is read like the positional call: parameter names from its definition
+            dm = repo.module(DETECT)
+            if dm.has_func('get_dep_identifier'):
+                a = dm.func('get_dep_identifier').args
+                S.EXTERNAL_PARAMS['get_dep_identifier'] = [x.arg for x in a.posonlyargs + a.args]
         meths = mod.methods(cls)
         helpers = {q: f for q, f in mod.funcs().items() if '.' not in q and q not in MODULE_VOCAB.get(mod.rel, frozenset())}
         new = S.inline_helpers(fn, meths, VOCAB[cls], modfuncs=helpers)          # (always a private copy)
@@ -283,6 +290,51 @@ def r1a(ctx: RuleCtx) -> None:
 # ---------------------------------------------------------------------------------------------
 # R1b  the candidate functions
 
+def _keyed_accesses(e: ast.AST) -> T.Iterator[T.Tuple[str, ast.AST, ast.AST]]:
+    """(table, machine index, key) of every access `TABLE[IDX].get/put/setdefault/pop(KEY..)`, `TABLE[IDX][KEY]`, `KEY in TABLE[IDX]` inside `e`,
+    TABLE being the override table (`*.dependency_overrides`) or the dependency cache (`self.coredata.deps`)"""
+    def table(x: ast.AST) -> T.Optional[T.Tuple[str, ast.AST]]:
+        if isinstance(x, ast.Subscript):
+            t = norm(x.value)
+            if t.endswith('.dependency_overrides') or t == 'self.coredata.deps':
+                return t, x.slice
+        return None
+    for x in ast.walk(e):
+        if isinstance(x, ast.Call) and isinstance(x.func, ast.Attribute) and x.func.attr in ('get', 'put', 'setdefault', 'pop') and x.args and table(x.func.value):
+            t, idx = T.cast(T.Tuple[str, ast.AST], table(x.func.value))
+            yield t, idx, x.args[0]
+        elif isinstance(x, ast.Subscript) and table(x.value):
+            t, idx = T.cast(T.Tuple[str, ast.AST], table(x.value))
+            yield t, idx, x.slice
+        elif isinstance(x, ast.Compare) and len(x.ops) == 1 and isinstance(x.ops[0], (ast.In, ast.NotIn)) and table(x.comparators[0]):
+            t, idx = T.cast(T.Tuple[str, ast.AST], table(x.comparators[0]))
+            yield t, idx, x.left
+
+
+def _key_agreement(ctx: RuleCtx, mod: Module, qn: str, exprs: T.Iterable[ast.AST], name: str, kwargs: str, minimum: int) -> None:
+    """Writers and readers of the override table and of the dependency cache must agree on the key: every access made with a
+    get_dep_identifier(..) key uses (the dependency name of this scope, the kwargs of the lookup) and the table of self.for_machine -
+    what lookup() records under identifier(name, kwargs) is otherwise not what the next lookup with the same arguments reads.
+    (An access whose key is not a get_dep_identifier call is left to the table rules, which do not recognise it.)"""
+    seen: T.Dict[str, T.Tuple[str, ast.AST, ast.AST]] = {}
+    for e in exprs:
+        for t, idx, key in _keyed_accesses(e):
+            if isinstance(key, ast.Call) and call_method(key) == 'get_dep_identifier':
+                seen.setdefault(f'{t}[{norm(idx)}] key {norm(key)}', (t, idx, key))
+    for text, (t, idx, key) in sorted(seen.items()):
+        assert isinstance(key, ast.Call)
+        if len(key.args) != 2 or key.keywords:
+            raise Undecided(f'{qn}: get_dep_identifier called as {short(key)} (not two positional operands)')
+        ok = norm(idx) == 'self.for_machine' and [norm(a) for a in key.args] == [name, kwargs]
+        ctx.require(ok, f'{t.split(".")[-1]} accessed as [self.for_machine][identifier(name, kwargs)]', mod, qn,
+                    f'{t.split(".")[-1]} access: machine {norm(idx)}, identifier operands ({", ".join(norm(a) for a in key.args)})',
+                    f'{t}[{norm(idx)}] is accessed with the key {short(key)}; every other reader/writer of that table uses [self.for_machine] and '
+                    f'get_dep_identifier(<dependency name>={name}, <lookup kwargs>={kwargs}) - the entry recorded by one lookup is not the one the next lookup with the same arguments reads')
+    if len(seen) < minimum:
+        raise Undecided(f'{qn}: {len(seen)} accesses of the override table / dependency cache keyed by get_dep_identifier were read, {minimum} expected')
+    ctx.note(f'{qn}: accesses of the override table / dependency cache keyed by get_dep_identifier: {len(seen)}')
+
+
 def r1b(ctx: RuleCtx) -> None:
     mod = ctx.repo.module(DF)
     # _do_subproject
@@ -325,16 +377,20 @@ def r1b(ctx: RuleCtx) -> None:
         return None
     sem2 = _label_atoms(tab, cls_sys)
 
+    stores: T.List[ast.AST] = []
+
     def got2(r: SymRow) -> T.Any:
         v = r.sp.value()
         if r.path.outcome == 'return' and isinstance(v, ast.Call) and call_method(v) == 'find_external_dependency':
             args = [norm(a) for a in v.args]
             puts = [s for o, s, _ in r.calls() if call_method(o) == 'put' and 'self.coredata.deps' in norm(s.func)]
+            stores.extend(puts)
             cached = any(len(p.args) == 2 and norm(p.args[1]) == norm(v) and call_method(p.args[0]) == 'get_dep_identifier' for p in puts)
             return ('dep', args[0] if args else '', 'cached' if cached else 'not cached')
         return r.outcome
     decide(ctx, mod, qn, fn, tab, sem2, lambda v: ('dep', 'ARG2', 'cached') if v['found'] else ('return', 'None'), got2,
            'system lookup: found -> stored and returned, else None', ('found',))
+    _key_agreement(ctx, mod, qn, stores, 'ARG2', 'ARG1', 1)
 
     # _do_existing_subproject
     qn = f'{H}._do_existing_subproject'
@@ -384,7 +440,10 @@ def r1c(ctx: RuleCtx) -> None:
     fn = _fn(mod, qn)
     tab = symtable(fn, qn)
 
+    read: T.List[ast.AST] = []
+
     def cls(a: Atom, e: ast.AST) -> T.Optional[str]:
+        read.append(e)
         if a.kind != 'truth':
             return None
         if _is_override(e):
@@ -413,6 +472,7 @@ def r1c(ctx: RuleCtx) -> None:
         v = r.sp.value()
         if v is None or (isinstance(v, ast.Constant) and v.value is None):
             return 'None'
+        read.append(v)
         if _is_override_dep(v):
             return 'override dependency'
         if _is_disk(v):
@@ -434,6 +494,7 @@ def r1c(ctx: RuleCtx) -> None:
             return 'None'
         return 'disk cache entry' if v['version ok'] else 'None'
     decide(ctx, mod, qn, fn, tab, sem, ref, got, 'override > (forced: nothing | disk cache), version checked', LABELS)
+    _key_agreement(ctx, mod, qn, read, 'ARG1', 'ARG2', 2)
 
 
 # ---------------------------------------------------------------------------------------------
@@ -1192,16 +1253,34 @@ def _nodownload_atoms() -> T.Tuple[Atom, ...]:
     return (Atom('is', ('self.wrap_mode', 'WrapMode.nodownload')), tables.canon(_parse('self.wrap_mode == WrapMode.nodownload'), True)[0])
 
 
+def _unguarded(cfg: CFG, is_guard: T.Callable[[Node], T.Any], dead: T.Set[T.Tuple[int, T.Any]]) -> T.Set[int]:
+    """S.unguarded() with the edges in `dead` (test node, label) removed: nodes that can start although no guard has completed"""
+    guards = {n.id: g for n in cfg.nodes for g in [is_guard(n)] if g}
+
+    def follow(a: Node, b: Node, lab: T.Any) -> bool:
+        if (a.id, lab) in dead:
+            return False
+        g = guards.get(a.id)
+        if g is None:
+            return True
+        if g in ('T', 'F'):            # an inline test: only its "allowed" edge is guarded
+            return lab != (g == 'T')
+        return lab == 'exc'
+    return cfg.reachable([cfg.entry], edge_ok=follow, include_start=True)
+
+
 class _Net:
     def __init__(self, mod: Module):
         self.mod = mod
         self.methods = mod.methods(R)
         self.cfgs: T.Dict[str, CFG] = {}
-        self.memo: T.Dict[T.Tuple[str, bool], T.Dict[T.Tuple[str, str], T.List[str]]] = {}
+        self.memo: T.Dict[T.Any, T.Dict[T.Tuple[str, str], T.List[str]]] = {}
         self.guard_sites: T.Set[str] = set()
         self._guarding: T.Dict[str, bool] = {}
         self.inline_guards = 0
         self._in_progress: T.Set[str] = set()
+        self._swallowed: T.Dict[str, T.Dict[int, str]] = {}
+        self._swallow_by_node: T.Dict[int, str] = {}
 
     def fn_of(self, key: str) -> T.Optional[ast.AST]:
         if key.startswith('self.'):
@@ -1212,7 +1291,61 @@ class _Net:
     def cfg(self, key: str) -> CFG:
         if key not in self.cfgs:
             self.cfgs[key] = CFG(self.fn_of(key))  # type: ignore[arg-type]
+            self._swallow_by_node.update(self._swallowing_withs(self.fn_of(key)))  # type: ignore[arg-type]
         return self.cfgs[key]
+
+    def _guard_exceptions(self) -> T.Set[str]:
+        """names under which a failure of the guard can be caught: the classes check_can_download() raises, their bases as far as this module
+        declares them, Exception and BaseException"""
+        out = {'Exception', 'BaseException'}
+        g = self.methods.get(GUARD)
+        todo = [(call_name(r.exc) if isinstance(r.exc, ast.Call) else attr_chain(r.exc)) or '' for r in ast.walk(g) if isinstance(r, ast.Raise) and r.exc is not None] if g is not None else []
+        todo = todo or ['WrapException']
+        classes = self.mod.classes()
+        while todo:
+            c = todo.pop().split('.')[-1]
+            if c and c not in out:
+                out.add(c)
+                if c in classes:
+                    todo += [attr_chain(b) or '' for b in classes[c].bases]
+        return out
+
+    def _swallowing_withs(self, fn: ast.AST) -> T.Dict[int, str]:
+        """{id(node inside the body): with-item} for `with` statements that do not let a failure of the guard out of their body:
+        contextlib.suppress(<a class the guard's exception is an instance of>).  A suppress() of unrelated builtin exceptions lets it out;
+        anything else about suppress(), and a @contextmanager helper of this module that has an except clause, is not read (value '?')."""
+        import builtins
+        out: T.Dict[int, str] = {}
+        caught = self._guard_exceptions()
+        for w in ast.walk(fn):
+            if not isinstance(w, (ast.With, ast.AsyncWith)):
+                continue
+            verdict = ''
+            for it in w.items:
+                c = it.context_expr
+                if not isinstance(c, ast.Call):
+                    continue
+                cn = call_name(c) or ''
+                if cn.split('.')[-1] == 'suppress':
+                    names = [attr_chain(a) for a in c.args]
+                    if any(isinstance(a, ast.Starred) for a in c.args) or None in names or c.keywords:
+                        verdict = verdict or '?' + short(c, 60)
+                    elif any(x.split('.')[-1] in caught for x in names):  # type: ignore[union-attr]
+                        verdict = short(c, 60)
+                    elif not all(isinstance(getattr(builtins, x, None), type) and issubclass(getattr(builtins, x), BaseException) for x in names):  # type: ignore[arg-type]
+                        verdict = verdict or '?' + short(c, 60)
+                else:
+                    helper = self.fn_of(cn) if cn.startswith('self.') or '.' not in cn else None
+                    if helper is not None and any((attr_chain(d) or '').split('.')[-1] == 'contextmanager' for d in helper.decorator_list) \
+                            and any(isinstance(x, ast.ExceptHandler) for x in ast.walk(helper)):
+                        verdict = verdict or '?' + short(c, 60)
+            if verdict:
+                for b in w.body:
+                    for x in ast.walk(b):
+                        if not out.get(id(x), '?').startswith('?'):
+                            continue
+                        out[id(x)] = verdict
+        return out
 
     def guarding(self, m: str) -> bool:
         """every normal completion of self.<m>() has passed the guard (so a call of it is as good as the guard)"""
@@ -1238,7 +1371,14 @@ class _Net:
             if a in _nodownload_atoms():
                 self.inline_guards += 1
                 return 'F' if pol else 'T'
-        return any(isinstance(c, ast.Call) and self.guarding(S.self_method_called(c) or '') for c in walk_no_nested(e))
+        hit = any(isinstance(c, ast.Call) and self.guarding(S.self_method_called(c) or '') for c in walk_no_nested(e))
+        if hit and n.kind == 'stmt':
+            sw = self._swallow_by_node.get(id(n.ast))
+            if sw is not None and sw.startswith('?'):
+                raise Undecided(f'`{short(e, 60)}` runs inside `with {sw[1:]}`, and whether that lets the refusal of check_can_download() out is not read')
+            if sw is not None:
+                return False        # (the refusal is suppressed: what follows runs whether or not downloading is allowed)
+        return hit
 
     def dispatch_targets(self, c: ast.Call, fn: ast.AST) -> T.Optional[T.List[ast.AST]]:
         """`T[k](..)`, `T.get(k)(..)`, or `f = T[k] / T.get(k[, d])` ... `f(..)` with T a dict display (local, class-level or module-level
@@ -1289,17 +1429,72 @@ class _Net:
             return None
         return [v for v in disp.values if v is not None] + extra
 
-    def sites(self, key: str, unguarded_only: bool, busy: T.FrozenSet[str] = frozenset()) -> T.Dict[T.Tuple[str, str], T.List[str]]:
+    Bind = T.FrozenSet[T.Tuple[str, T.Any]]
+
+    def flag_binding(self, callee: ast.AST, c: ast.Call) -> 'Bind':
+        """call-site specialisation: the parameters of `callee` that this call binds to a literal True/False/None (given, or left to such a
+        default) and that the callee never rebinds.  Inside the callee a test of such a parameter has one live edge only."""
+        a = callee.args  # type: ignore[attr-defined]
+        if a.vararg or a.kwarg or any(isinstance(x, ast.Starred) for x in c.args) or any(k.arg is None for k in c.keywords):
+            return frozenset()
+        params = [p.arg for p in a.posonlyargs + a.args]
+        if params and params[0] in ('self', 'cls') and isinstance(c.func, ast.Attribute):
+            params = params[1:]
+        defaults: T.Dict[str, ast.AST] = dict(zip(reversed([p.arg for p in a.posonlyargs + a.args]), reversed(a.defaults)))
+        defaults.update({p.arg: d for p, d in zip(a.kwonlyargs, a.kw_defaults) if d is not None})
+        given: T.Dict[str, ast.AST] = dict(zip(params, c.args))
+        given.update({T.cast(str, k.arg): k.value for k in c.keywords})
+        out = set()
+        for p in params + [x.arg for x in a.kwonlyargs]:
+            v = given.get(p, defaults.get(p))
+            if isinstance(v, ast.Constant) and (v.value is None or isinstance(v.value, bool)) and not _assigned(callee, p) \
+                    and not any(isinstance(x, (ast.Global, ast.Nonlocal)) or (isinstance(x, ast.Name) and x.id == p and isinstance(x.ctx, (ast.Store, ast.Del)))
+                                for x in ast.walk(callee)):
+                out.add((p, v.value))
+        return frozenset(out)
+
+    @staticmethod
+    def dead_edges(cfg: CFG, bind: 'Bind') -> T.Set[T.Tuple[int, T.Any]]:
+        """(test node, edge label) pairs that cannot be taken when the parameters in `bind` have their literal values: plain tests
+        `p`, `not p`, `p is/== True/False/None` (anything compound keeps both edges)"""
+        vals = dict(bind)
+        lit = {'True': True, 'False': False, 'None': None}
+        dead: T.Set[T.Tuple[int, T.Any]] = set()
+        for n in cfg.nodes:
+            if n.kind != 'test' or not vals:
+                continue
+            a, pol = tables.canon(n.expr(), True)  # type: ignore[arg-type]
+            v: T.Optional[bool] = None
+            if a.kind == 'truth' and a.args[0] in vals:
+                v = bool(vals[a.args[0]])
+            elif a.kind in ('is', 'cmp'):
+                x, y = a.args[-2:]
+                if a.kind == 'cmp' and a.args[0] != 'eq':
+                    continue
+                if y in vals and x in lit:
+                    x, y = y, x
+                if x in vals and y in lit:
+                    v = vals[x] is lit[y]
+            if v is not None:
+                dead.add((n.id, not (v == pol)))
+        return dead
+
+    def sites(self, key: str, unguarded_only: bool, busy: T.FrozenSet[T.Any] = frozenset(), bind: 'Bind' = frozenset()) -> T.Dict[T.Tuple[str, str], T.List[str]]:
         """primitive sites {(function, call text): call chain} reachable from the entry of `key`
-        (all of them, or only those that can start before any guard completed)."""
-        mk = (key, unguarded_only)
+        (all of them, or only those that can start before any guard completed), `key` being entered with the flag parameters in `bind`
+        bound to literals by the call site."""
+        mk = (key, unguarded_only, bind)
         if mk in self.memo:
             return self.memo[mk]
-        if key in busy:
+        if (key, bind) in busy:
             return {}
         fn = self.fn_of(key)
         cfg = self.cfg(key)
-        live = S.unguarded(cfg, self._is_guard) if unguarded_only else cfg.reachable([cfg.entry], include_start=True)
+        dead = self.dead_edges(cfg, bind)
+        if unguarded_only:
+            live = _unguarded(cfg, self._is_guard, dead)
+        else:
+            live = cfg.reachable([cfg.entry], edge_ok=lambda a, b, lab: (a.id, lab) not in dead, include_start=True)
         out: T.Dict[T.Tuple[str, str], T.List[str]] = {}
         for n in cfg.nodes:
             if n.expr() is not None and any(isinstance(c, ast.Call) and S.self_method_called(c) == GUARD for c in walk_no_nested(n.expr())) \
@@ -1337,7 +1532,9 @@ class _Net:
                         elif isinstance(v, ast.Name) and self.fn_of(v.id) is not None:
                             callees.append(v.id)
                 for callee in callees:
-                    for site, chain in self.sites(callee, unguarded_only, busy | {key}).items():
+                    cb = self.flag_binding(self.fn_of(callee), c) if (S.self_method_called(c) and 'self.' + (S.self_method_called(c) or '') == callee
+                                                                      or isinstance(c.func, ast.Name) and c.func.id == callee) else frozenset()
+                    for site, chain in self.sites(callee, unguarded_only, busy | {(key, bind)}, cb).items():
                         out.setdefault(site, [key] + chain)
         if not busy:
             self.memo[mk] = out
@@ -1970,7 +2167,7 @@ def _replayable(fn: T.Callable[[RuleCtx], None], *files: str) -> T.Callable[[Rul
     return run
 
 
-r1a, r1b, r1c, r1d, r1e, r1f, r1g = (_replayable(f, DF) for f in (r1a, r1b, r1c, r1d, r1e, r1f, r1g))
+r1a, r1b, r1c, r1d, r1e, r1f, r1g = (_replayable(f, DF, DETECT) for f in (r1a, r1b, r1c, r1d, r1e, r1f, r1g))
 r2a, r2b, r2c, r2d, r3, r4 = (_replayable(f, WRAP) for f in (r2a, r2b, r2c, r2d, r3, r4))
 r5 = _replayable(r5, DETECT, INTERP, DF)
 r6 = _replayable(r6, DBASE, DF)
